@@ -4,3 +4,4 @@ import RaftWal.Props.C04
 #print axioms RaftWal.C04.truncations_refine_spec
 #print axioms RaftWal.C04.files_deleted_only_after_commit
 #print axioms RaftWal.C04.truncation_atomic_any_crash
+#print axioms RaftWal.C04.truncation_scans_from_source
